@@ -13,7 +13,7 @@ from hypothesis import strategies as st
 from pbt import models_v2 as M
 from pbt import origins as og
 from pbt import trees as T
-from pbt.runtime import Ctx, Labels, Part, require
+from pbt.runtime import short_tb, Ctx, Labels, Part, require
 
 PROP = "C16"
 RULE = (
@@ -452,6 +452,9 @@ def check_program(data: dict, lab: Labels) -> None:
                 del res
                 lab.tag("deserialization-ok")
             except Exception as e:  # noqa: BLE001 - any rejection of a corrupt payload is fine
+                # ... but an undamaged payload written with the same (round-trippable) options is read
+                require(did or bool(Bomb.armed_de) or bool(mask & (O_SKIP | O_TEST | O_OMIT | O_DIALECT)), "options-not-applied-on-reading",
+                        f"{desc}: the payload this call's options produced was rejected: {short_tb(e)}")
                 state["failed"] = True
                 lab.tag("failing-deserialization")
                 del e
